@@ -154,6 +154,46 @@ def calls_to(prog, fi, quals, self_cls=None):
     return out
 
 
+def call_chains(prog, root, target, max_depth=3, inline=False, within=None):
+    """every chain of direct calls root -> ... -> target (through functions accepted by `within`, default: same module):
+    [(guards, binding)] with the guards of all call sites on the chain and the parameters of `target`, both expressed in
+    root's terms (the callee's parameters are replaced by the caller's arguments along the chain)"""
+    from .flow import resolve_call
+    within = within or (lambda f: f.module is root.module)
+    out = []
+
+    def sub_all(v, binding):
+        for p_, a_ in binding.items():
+            v = subst(v, ("param", p_), a_)
+        return v
+
+    def walk(f, guards, binding, depth, seen):
+        if f is target:
+            out.append((tuple(guards), dict(binding)))
+            return
+        if depth >= max_depth:
+            return
+        sy = None
+        for c in walk_body(f.node):
+            if not isinstance(c, ast.Call):
+                continue
+            for t, _k in resolve_call(prog, f, f.cls, c):
+                if t.qual in seen or not within(t) or (t.cls is not None and t.name == "__init__"):
+                    continue
+                sy = sy or Sym(prog, f, f.cls, inline=inline)
+                env, gs = sy.env_at(c)
+                b2 = {}
+                for p_ in t.params:
+                    if p_ in ("self", "cls") and t.cls is not None and not t.is_static:
+                        continue
+                    a_ = call_arg(prog, c, t, p_, sy, env)
+                    if a_ is not None:
+                        b2[p_] = sub_all(a_, binding)
+                walk(t, list(guards) + [sub_all(g, binding) for g in gs], b2, depth + 1, seen | {t.qual})
+    walk(root, [], {}, 0, {root.qual})
+    return out
+
+
 # ---------------------------------------------------------------- classes
 def instance_attrs(prog, ci):
     """attributes stored on self by the constructor of ci: own __init__ or the inherited one, following super().__init__()
